@@ -185,6 +185,17 @@ def one_variant(acc, case, key, V, Xf, rows, n, p):
     for a, b in pairs:
         if not batch_check([a, b], "pair"):
             return False
+    # (iv') a held result must not change when the scorer is evaluated again (no view of a reused internal buffer)
+    if len(clean) >= 2:
+        for a, b in ((clean, clean[::-1]), (clean[:1], clean[-1:]), (clean, clean[-1:])):
+            if [tuple(x) for x in a] == [tuple(x) for x in b]:
+                continue
+            ok, before, after = util.result_survives(cost, a, b)
+            if not ok:
+                acc.violation("cost-result-overwritten", dict(case, first=[list(x) for x in a], then=[list(x) for x in b]),
+                              f"{V.name}: the array returned by evaluate({[list(x) for x in a][:3]}...) changed from {before.tolist()[:3]} to "
+                              f"{after.tolist()[:3]} after a later evaluate call on the same scorer", key)
+                return False
     # (v) alone again after everything
     for iv in clean:
         r, _ = ev([iv])
